@@ -25,7 +25,8 @@ EXTRA_CORR = {
     "CasesC19A.v": [("c19al_mismatches", "CasesC19AL.idx", "labels: listing after every installation of the real WithAddedKeyUpsertCertIntoAgentConnection, again and again under one label and its neighbours, for every class of label byte string (plain, space, tab, line end, control bytes, multi-byte characters, Unicode spaces, 3-5 kB, empty, prefix of another, other case, outer spaces, space runs, random bytes) = model install_cert (%s installations)", "c19al_ncases"),
                     ("c19ae_mismatches", "CasesC19AE.idx", "which agent (library): success flag and the listing of EVERY agent of the scene (the one SSH_AUTH_SOCK names and the decoys at conventional places) after WithAddedKeyUpsertCertIntoAgent / UpsertCertIntoAgent in every agent environment situation = model world_upsert (%s scenes)", "c19ae_ncases")],
     "CasesC19S.v": [("c19k_mismatches", "CasesC19K.idx", "server key material: daemon states built through the configuration path with every CA key file (main CA RSA / P-256 / P-384 / P-521 as PKCS#8, PKCS#1 / SEC1, OpenSSH; Ed25519 CA absent, PKCS#8, OpenSSH; sealed variants; key files of the wrong kind) x every key type the client offers through certgen ssh and x509: daemon starts or not, answer per key type = model load_signers / ssh_answer_of / x509_certified (%s configurations)", "c19k_ncases")],
-    "CasesC19.v": [("c19w_mismatches", "CasesC19W.idx", "client runs with the web-browser login (stored CLI token, verifyToken, browser command, cookie received on the local listener): recorded requests, files, agent labels = model setup_wire_web / install (%s runs)", "c19w_ncases"),
+    "CasesC19.v": [("c19l_mismatches", "CasesC19L.idx", "labels (client): the agent's listing after every run of insertSSHCertIntoAgentORWriteToFilesystem, run after run with file prefixes / user names of every label class = model install_cert (%s runs)", "c19l_ncases"),
+                   ("c19w_mismatches", "CasesC19W.idx", "client runs with the web-browser login (stored CLI token, verifyToken, browser command, cookie received on the local listener): recorded requests, files, agent labels = model setup_wire_web / install (%s runs)", "c19w_ncases"),
                    ("c19i_mismatches", "CasesC19I.idx", "which agent (client): agents of the scene and files under HOME after insertSSHCertIntoAgentORWriteToFilesystem in every agent environment situation = model install_ssh_env (%s scenes)", "c19i_ncases")],
 }
 # (definition, class, idx file, oracle text)
@@ -33,7 +34,8 @@ VIOLATING = {
     "CasesC19A.v": [("c19al_violating", "agent-label", "CasesC19AL.idx", "after an installation under a label the observed listing does not show exactly the new certificate under that label, or still holds a certificate an earlier installation under the label put there, or lost another identity"),
                     ("c19a_violating", "agent-replace", "CasesC19A.idx", "after an installation the observed agent listing breaks 'exactly one certificate under the label, nothing else removed, nothing added on error'"),
                     ("c19ae_violating", "private-key-to-undesignated-agent", "CasesC19AE.idx", "the new identity (private key + certificate) is observed in an agent that SSH_AUTH_SOCK does not name")],
-    "CasesC19.v": [("c19_violating", "private-exposed", "CasesC19.idx", "a recorded request carries private key material or a private key file is accessible to group/others"),
+    "CasesC19.v": [("c19l_violating", "agent-label", "CasesC19L.idx", "after a run of the client the agent's listing does not show exactly the new certificate under filePrefix-userName, or still holds a certificate an earlier run under that label put there, or lost another identity"),
+                   ("c19_violating", "private-exposed", "CasesC19.idx", "a recorded request carries private key material or a private key file is accessible to group/others"),
                    ("c19w_violating", "private-exposed", "CasesC19W.idx", "a recorded request of a web-login run carries private key material or a private key file is accessible to group/others"),
                    ("c19i_violating", "private-key-to-undesignated-agent", "CasesC19I.idx", "the new identity is observed in an agent that SSH_AUTH_SOCK does not name"),
                    ("c19i_violating_mode", "key-file-mode", "CasesC19I.idx", "a private key file under HOME is accessible to group/others after the installation")],
@@ -114,7 +116,7 @@ def run(ctx):
         a_ok, a_res, a_log = fa.result()
         u_ok, u_res, u_log = fu.result()
     if compile_gen(ctx, names=("Tables.v",)):
-        ctx.gen_obligations("Obl_C19.v", ["c19_serialises_public_only", "c19_private_to_0600_files", "c19_offered_accepted", "c19_offered_accepted_all"])
+        ctx.gen_obligations("Obl_C19.v", ["c19_serialises_public_only", "c19_private_to_0600_files", "c19_offered_accepted", "c19_offered_accepted_all", "c19_offered_certified_all_ca"])
     jobs = []
     if c_res is not None:
         jobs.append(("CasesC19.v", "c19_mismatches", "CasesC19.idx", "client runs: recorded requests (kind, key material), files and modes under HOME, agent labels = model (%s runs)", "c19_ncases"))
